@@ -23,12 +23,14 @@ type TLCStats struct {
 	Wall      float64
 	Errors    []string // anything TLC reported as an error (a specification problem: exit 2)
 	TimedOut  bool
+	Coverage  map[string]int // with -coverage: action name -> number of states it generated
 }
 
 var (
 	reStates = regexp.MustCompile(`^(\d+) states generated, (\d+) distinct states found`)
 	reDepth  = regexp.MustCompile(`depth of the complete state graph search is (\d+)`)
 	reSimul  = regexp.MustCompile(`^The number of states generated: (\d+)`)
+	reCover  = regexp.MustCompile(`^<(\w+) line \d+, col \d+ to line \d+, col \d+ of module \w+>: (\d+):(\d+)`)
 )
 
 // specDir is /verif/spec.
@@ -111,6 +113,12 @@ func runTLC(dir, module string, workers int, timeout time.Duration, extra []stri
 				st.Depth, _ = strconv.Atoi(m[1])
 			} else if m := reSimul.FindStringSubmatch(line); m != nil {
 				st.Generated, _ = strconv.Atoi(m[1])
+			} else if m := reCover.FindStringSubmatch(line); m != nil {
+				if st.Coverage == nil {
+					st.Coverage = map[string]int{}
+				}
+				n, _ := strconv.Atoi(m[3])
+				st.Coverage[m[1]] += n
 			}
 			if strings.HasPrefix(line, "Error:") || strings.Contains(line, "is violated") || strings.Contains(line, "Exception") {
 				inErr = true
